@@ -64,6 +64,12 @@ func (P *Prog) verifyFunc(fn *ssa.Function, c *Contract, cfgVal int, hasCfg bool
 				res.Err = "unsupported: " + e.msg
 			case CEvalError:
 				res.Err = "contract error: " + e.msg
+			case MemBudgetError:
+				// the symbolic execution of this function outgrew the generator's memory budget: no obligation of
+				// it can be claimed (reported like any other generation failure); drop what was built so far
+				res.Err = "generator memory budget exceeded: " + e.msg
+				x.obls = nil
+				memRelease()
 			default:
 				panic(r)
 			}
